@@ -63,6 +63,72 @@ static void read_worker(int t, int rounds, const std::vector<std::string>* paths
     tr.close();
 }
 
+// copies of one read block, one per thread: a copy is an instance of its own.  The main thread reads every block of a file and
+// makes N copies of it; N threads then walk their copies at the same time (every item through read_generic_*, rendered too).
+// What each thread gets is compared with the walk of a block read independently, alone, before any thread started.
+static std::string walk_block(CdnsBlockRead& blk)
+{
+    uint64_t h = 1469598103934665603ULL;
+    std::size_t n = 0;
+    auto mix = [&](const std::string& s) { for (unsigned char c : s) { h ^= c; h *= 1099511628211ULL; } h ^= 0xff; h *= 1099511628211ULL; };
+    bool end = false;
+    while (true) { GenericQueryResponse g = blk.read_generic_qr(end); if (end) break; mix(vr::qr_out(g).dump()); mix(g.string()); n++; }
+    while (true) { GenericAddressEventCount g = blk.read_generic_aec(end); if (end) break; mix(vr::aec_out(g).dump()); mix(g.string()); n++; }
+    while (true) { GenericMalformedMessage g = blk.read_generic_mm(end); if (end) break; mix(vr::mm_out(g).dump()); mix(g.string()); n++; }
+    char buf[64];
+    snprintf(buf, sizeof(buf), "%zu:%016llx", n, static_cast<unsigned long long>(h));
+    return buf;
+}
+typedef std::vector<std::unique_ptr<CdnsBlockRead>> Blocks;
+static Blocks read_blocks(const std::string& bytes)
+{
+    Blocks out;
+    try {
+        std::istringstream is(bytes, std::ios::binary);
+        CdnsReader rd(is);
+        bool eof = false;
+        while (true) { CdnsBlockRead b = rd.read_block(eof); if (eof) break; out.emplace_back(new CdnsBlockRead(b)); }
+    } catch (std::exception&) {}
+    return out;
+}
+static int read_copies(const std::vector<std::string>& paths, int nthreads, int rounds, const std::string& outp)
+{
+    vh::Trace tr;
+    tr.open(outp);
+    for (int round = 0; round < rounds; round++)
+    for (auto& path : paths) {
+        std::string bytes = vh::read_file(path);
+        std::string name = path.substr(path.find_last_of('/') + 1);
+        // alone: an independent reading of the file, walked before any thread exists
+        json alone = json::array();
+        { auto bl = read_blocks(bytes); for (auto& b : bl) alone.push_back(walk_block(*b)); }
+        auto blocks = read_blocks(bytes);
+        std::vector<Blocks> copies(nthreads);
+        for (int t = 0; t < nthreads; t++) for (auto& b : blocks) {
+            if (t % 3 == 0) copies[t].emplace_back(new CdnsBlockRead(*b));                                          // copy construction
+            else if (t % 3 == 1) { copies[t].emplace_back(new CdnsBlockRead()); *copies[t].back() = *b; }           // copy assignment
+            else { CdnsBlockRead tmp(*b); copies[t].emplace_back(new CdnsBlockRead(std::move(tmp))); }              // a copy handed on by move
+        }
+        std::vector<json> got(nthreads);
+        std::atomic<int> go{0};
+        std::vector<std::thread> ths;
+        for (int t = 0; t < nthreads; t++)
+            ths.emplace_back([&, t] {
+                while (!go.load()) sched_yield();
+                json r = json::array();
+                for (auto& b : copies[t]) { r.push_back(walk_block(*b)); if (t & 1) sched_yield(); }
+                got[t] = r;
+            });
+        go.store(1);
+        for (auto& th : ths) th.join();
+        for (int t = 0; t < nthreads; t++)
+            tr.emit({{"e", "S"}, {"file", name}, {"thread", t}, {"rd_seq", {{"fin", "eof"}, {"blocks", alone}}}, {"rd_thr", {{"fin", "eof"}, {"blocks", got[t]}}}});
+    }
+    tr.emit({{"e", "END"}});
+    tr.close();
+    return 0;
+}
+
 int main(int argc, char** argv)
 {
     const char* td = getenv("VERIF_TMP");
@@ -78,6 +144,11 @@ int main(int argc, char** argv)
         g_go.store(1);
         for (auto& th : ths) th.join();
         return 0;
+    }
+    if (argc == 6 && std::string(argv[1]) == "readcopies") {
+        std::vector<std::string> paths;
+        { std::ifstream in(argv[2]); std::string l; while (std::getline(in, l)) if (!l.empty()) paths.push_back(l); }
+        return read_copies(paths, atoi(argv[3]), atoi(argv[4]), std::string(argv[5]) + ".copies.ndjson");
     }
     if (argc == 6 && std::string(argv[1]) == "seq") {
         int nthreads = atoi(argv[3]), rounds = atoi(argv[4]);
